@@ -21,6 +21,12 @@ CLAIMED = {
     design_ref="DESIGN.md §5.20",
     note="Trusted: Coq kernel + VM; Model/M_Reproject.v transcription; the regridding is the reproject package (dependency: on coinciding grids it returns the source value, no value without coverage - validated by every run, values canonicalised to the 1/2 grid of the payload within 1e-6); adaptive resampling smooths, so only its refusals, shape and attributes are checked.",
     technique="Coq proof over hand-written Gallina model + vm_compute correspondence check"),
+ "C19": dict(
+    category="proof",
+    text="Coq theorems over tables of ANY length: C19_entries (entry i at integer pixel i, length 1 included), C19_linear (linear interpolation in between), C19_outside (no value outside the table), C19_inverse (a strictly increasing or decreasing table's entries map back to their pixel), C19_slice / C19_slice_int (every basic slice: entry k of the result is entry start + k*step of the table; an integer picks one entry), C19_interpolate (inside the table np.interp is the table's own linear interpolation), C19_resample_grid / C19_resample_values (the sampling positions of ExtraCoords.resample are exactly offset + k*factor while they stay on the axis, and the new table holds the interpolation there). Tied to /repo by an exact correspondence check over Quantity (1-2 meshed tables; m, pix, s), Time and SkyCoord (mesh and not) tables of length 1-8, joins of 1-3 coordinates with &, pixel->world at k/4 positions from below to above the table, world->pixel at entries and midpoints, all basic slice items (twice from the same parent), interpolate on grids, ExtraCoords.resample on 1-2-D cubes, plus a direct numpy oracle incl. declared names / physical types / units and parent-unchanged snapshots.",
+    design_ref="DESIGN.md §5.19",
+    note="Trusted: Coq kernel + VM; Model/M_Lookup.v + M_Resample.v transcription; astropy Tabular / np.interp are dependencies; Time and SkyCoord values are put on the 1/64 grid of the exact results (Time arithmetic and MJD interpolation carry up to ~1 microsecond); declared names / types / units are checked by the direct oracle only; 2-D (non-meshed) SkyCoord tables are not generated. Three known findings (sky-mesh-mixed-int, sky-step, q2-grid-shapes).",
+    technique="Coq proof over hand-written Gallina model + vm_compute correspondence check"),
  "C17": dict(
     category="proof",
     text="Coq theorems for ANY number of cubes sharing one coordinate structure: C17_structure (common_axis_coords = one entry per coordinate object with a component on the common axis, each the concatenation in cube order of the object's slices along the common axis; includes the alignment of array_indices_for_world_objects with axis_world_coords), C17_length (as many entries as the cube-like length, ragged lengths included), C17_kth (entry k = cube j's coordinate at position i, (j,i) located by C12's index arithmetic), C17_entry (every entry of that slice is the WCS value at the pixel whose common-axis coordinate is i, whichever dimension of the coordinate array the common axis is), C17_sequence_axis_sound/complete (exactly the names on every cube, per-cube values in order). Tied to /repo by an exact correspondence check on sequences of 1-4 cubes over integer probe WCS with random correlation structures, grouped objects, linear extra coords, ragged common axes on any cube axis, user-added and slicing-produced global coords, plus a direct full-grid oracle incl. FITS TAN / rotated families.",
